@@ -33,7 +33,22 @@ fn tol<T: Fl>(ka: &Kind, kb: &Kind) -> f64 {
             1.0e-4
         }
     } else {
-        1.0e-5
+        // f64: conversions inside the CIE family are exact formulas of the white point; measured on the
+        // unchanged tree (dense lattice, D65): <= 2e-14 among XYZ / xyY / L*a*b* / LCh(ab) and into CIELUV,
+        // <= 1.2e-9 out of CIELUV / HSLuv, <= 2.3e-8 with Oklab / Oklch (CSS-recalculated M1, 8-9 digits);
+        // everything that touches a 7-digit RGB or LMS matrix or an Ok approximation keeps 1e-5
+        let lvl = |k: &Kind| match k {
+            Kind::Xyz(_) | Kind::Yxy(_) | Kind::Lab(_) | Kind::Lch(_) => 0,
+            Kind::Luv(_) | Kind::Lchuv(_) | Kind::Hsluv(_) => 1,
+            Kind::Oklab | Kind::Oklch => 2,
+            _ => 3,
+        };
+        match lvl(ka).max(lvl(kb)) {
+            0 => 1.0e-11,
+            1 => 1.0e-8,
+            2 => 2.0e-7,
+            _ => 1.0e-5,
+        }
     }
 }
 
